@@ -457,12 +457,13 @@ class FmtStr:
     def splitlines(self, keepends: bool = False) -> List["FmtStr"]:
         """Return a list of lines, split on newline characters,
         include line boundaries, if keepends is true."""
-        lines = self.split("\n")
-        return (
-            [line + "\n" for line in lines]
-            if keepends
-            else (lines if lines[-1] else lines[:-1])
-        )
+        lines = []
+        start = 0
+        for line in self.s.splitlines(True):
+            end = start + (len(line) if keepends else len(line.splitlines()[0]))
+            lines.append(self[start:end])
+            start += len(line)
+        return lines
 
     # proxying to the string via __getattr__ is insufficient
     # because we shouldn't drop foreground or formatting info
